@@ -30,9 +30,10 @@ class Case:
         self.n_iter, self.np_seed = n_iter, np_seed
         self.N = len(D)
         self.draws = None
+        self.strided = False
 
     def desc(self):
-        return dict(kind=self.kind, metric=self.metric, n_iterations=self.n_iter, np_seed=self.np_seed,
+        return dict(kind=self.kind, metric=self.metric, n_iterations=self.n_iter, np_seed=self.np_seed, strided=self.strided,
                     universe_rows=self.U, D=None if self.U is not None else self.D,
                     X_train_ids=self.Xt, Y_train=self.Yt, X_val_ids=self.Xv, Y_val=self.Yv, draws=self.draws,
                     note="feature universe: row of id i is universe_rows[i]; matrix universe: the feature row of id i "
@@ -43,7 +44,13 @@ class Case:
                 tuple(self.Yv), self.n_iter, self.np_seed)
 
     def arrays(self):
-        if self.U is not None:
+        if self.U is not None and self.strided:
+            # the caller's matrices as column-strided views of wider buffers (rows handed to the metric are strided too)
+            def rows(ids):
+                wide = np.full((len(ids), 2 * len(self.U[0])), 7.5)
+                wide[:, ::2] = np.array([self.U[i] for i in ids], dtype=float)
+                return wide[:, ::2]
+        elif self.U is not None:
             rows = lambda ids: np.array([self.U[i] for i in ids], dtype=float)
         else:
             rows = lambda ids: np.array([[float(i)] for i in ids], dtype=float)
@@ -107,7 +114,7 @@ def val_labels(rng, D, n, m, Yt, mode):
 
 
 def gen_case(rng, i, tier, for_prune=False):
-    stream = rng.choice(["blob", "blob", "gen", "gen", "grid", "tiefree", "mat"])
+    stream = rng.choice(["blob", "blob", "gen", "gen", "grid", "tiefree", "mat"] + (["grid"] * 5 if for_prune else []))
     big = tier != "quick"
     n_iter = rng.randint(1, 3) if for_prune else rng.randint(1, 5)
     m = rng.randint(2, 8)
@@ -195,7 +202,11 @@ def run_learn_impl(case):
         return orig_copy.deepcopy(x, *a, **k)
     np.random.seed(case.np_seed)
     g.opf_accuracy, r.generate_uniform_random_number = wacc, wrand
-    sup_mod.copy = types.SimpleNamespace(deepcopy=wdeepcopy, copy=orig_copy.copy)
+    def wcopy(x, *a, **k):
+        if x is opf:
+            best_calls.append(len(accs) - 1)
+        return orig_copy.copy(x, *a, **k)
+    sup_mod.copy = types.SimpleNamespace(deepcopy=wdeepcopy, copy=wcopy)
     err = None
     try:
         opf.learn(Xt, Yt, Xv, Yv, n_iterations=case.n_iter)
@@ -383,6 +394,27 @@ FINDING_FLOAT_TIE = os.path.join(VERIF, "findings", "C17_learnfull_float_tie.jso
 
 
 def case_from_desc(d):
+    c = _case_from_desc(d)
+    if d.get("strided"):
+        make_strided(c)
+    return c
+
+
+def make_strided(case):
+    """hand the library column-strided views; the distances are recomputed on exactly such row views"""
+    if case.U is None:
+        return case
+    wide = np.full((len(case.U), 2 * len(case.U[0])), 7.5)
+    wide[:, ::2] = np.array(case.U, dtype=float)
+    D = metric_matrix(case.metric, case.U, wide[:, ::2])
+    if any(v != v for r in D for v in r):
+        return case
+    case.D, case.strided = D, True
+    case.kind += "/strided"
+    return case
+
+
+def _case_from_desc(d):
     return Case(d["kind"], d["metric"], d["universe_rows"], d["D"] if d["universe_rows"] is None else
                 metric_matrix(d["metric"], d["universe_rows"]), d["X_train_ids"], d["Y_train"], d["X_val_ids"], d["Y_val"],
                 d["n_iterations"], d["np_seed"])
@@ -442,6 +474,8 @@ def check(rep, tier, seed):
         i += 1
         case = gen_tie_case(rng, i) if i % 4 == 0 else gen_case(rng, i, tier)
         if case is not None:
+            if i % 3 == 2:
+                make_strided(case)
             add_case(case)
     nameq = ("correspondence Model/LearnFull.learn_full at QAcc (fit, predict, EXACT accuracy computed inside; only the random "
              "draws recorded) vs SupervisedOPF.learn, on every run whose binary64 comparisons decide like the exact ones: "
@@ -462,6 +496,8 @@ def check(rep, tier, seed):
         case = gen_case(rng, i, tier, for_prune=True)
         if case is None:
             continue
+        if i % 5 == 2:
+            make_strided(case)
         out = run_prune_impl(case)
         if out["err"] is not None and not isinstance(out["err"], IndexError):
             viol("SupervisedOPF.prune raised %r" % (out["err"],), case, "prunefull:raises:" + type(out["err"]).__name__)
